@@ -138,6 +138,7 @@ def gen_step(rng, sid, knames, weights=None):
         st['key_expiration_s'] = rng.choice([None, None, None, 86400 * 365 * 30, 86400 * 365 * 50])
         # a self-certification that itself expires (unusual, legal): it stays on the key and in its exports
         st['sig_expires_s'] = rng.choice([None, None, None, None, 3600, 86400 * 30])
+        st['no_issuer_fpr'] = rng.random() < 0.2
     if kind == 'add_subkey':
         st['alg'] = rng.choice(['cv25519', 'cv25519', 'ed25519', 'p256', 'ecdh_p256', 'ecdh_p384'])
         st['usage'] = ('E' if not world.can_sign(st['alg']) else rng.choice(['S', 'S', 'SA', 'A']))
@@ -304,6 +305,9 @@ class KeyHistory(object):
             kw['primary'] = st['primary']
         if st.get('key_expiration_s'):
             kw['key_expiration'] = datetime.timedelta(seconds=st['key_expiration_s'])
+        if st.get('no_issuer_fpr') and st.get('op') in ('add_uid', 'recertify'):
+            kw['include_issuer_fingerprint'] = False
+            self.ctx.probe('self_certification_without_issuer_fingerprint')
         if st.get('sig_expires_s') and st.get('op') in ('add_uid', 'recertify'):
             kw['expires'] = datetime.timedelta(seconds=st['sig_expires_s'])
             self.ctx.probe('self_certification_expires')
